@@ -389,6 +389,7 @@ func (f *Fetcher) loop() {
 					if f.getBlock(hash) == nil {
 						request[announce.origin] = append(request[announce.origin], hash)
 						f.fetching[hash] = announce
+						f.announces[announce.origin]++ // forgetHash released it with the others, it stays
 					}
 				}
 			}
@@ -428,6 +429,7 @@ func (f *Fetcher) loop() {
 					f.mu.Lock()
 					request[announce.origin] = append(request[announce.origin], hash)
 					f.completing[hash] = announce
+					f.announces[announce.origin]++ // forgetHash released it with the others, it stays
 					f.mu.Unlock()
 					log.Trace("timer ran out, released lock")
 				}
@@ -715,12 +717,22 @@ func (f *Fetcher) insert(peer string, block *types.Block) {
 func (f *Fetcher) forgetHash(hash common.Hash) {
 	f.mu.Lock()
 	defer f.mu.Unlock()
-	// Remove all pending announces and decrement DOS counters
-	for _, announce := range f.announced[hash] {
+	// An announcement can sit in more than one of the maps at a time (a delivered header keeps
+	// its fetching entry): decrement the DOS counter once per announcement, not once per entry
+	released := make(map[*announce]struct{})
+	release := func(announce *announce) {
+		if _, done := released[announce]; done {
+			return
+		}
+		released[announce] = struct{}{}
 		f.announces[announce.origin]--
 		if f.announces[announce.origin] == 0 {
 			delete(f.announces, announce.origin)
 		}
+	}
+	// Remove all pending announces and decrement DOS counters
+	for _, announce := range f.announced[hash] {
+		release(announce)
 	}
 	delete(f.announced, hash)
 	if f.announceChangeHook != nil {
@@ -728,28 +740,19 @@ func (f *Fetcher) forgetHash(hash common.Hash) {
 	}
 	// Remove any pending fetches and decrement the DOS counters
 	if announce := f.fetching[hash]; announce != nil {
-		f.announces[announce.origin]--
-		if f.announces[announce.origin] == 0 {
-			delete(f.announces, announce.origin)
-		}
+		release(announce)
 		delete(f.fetching, hash)
 	}
 
 	// Remove any pending completion requests and decrement the DOS counters
 	for _, announce := range f.fetched[hash] {
-		f.announces[announce.origin]--
-		if f.announces[announce.origin] == 0 {
-			delete(f.announces, announce.origin)
-		}
+		release(announce)
 	}
 	delete(f.fetched, hash)
 
 	// Remove any pending completions and decrement the DOS counters
 	if announce := f.completing[hash]; announce != nil {
-		f.announces[announce.origin]--
-		if f.announces[announce.origin] == 0 {
-			delete(f.announces, announce.origin)
-		}
+		release(announce)
 		delete(f.completing, hash)
 	}
 }
